@@ -41,6 +41,12 @@ func (e *Exec) bigSetStringSym(z *PtrV, s *StrV, base int) Value {
 	if !e.branch(valid, "big.SetString-valid") {
 		return &TupleV{E: []Value{&PtrV{}, tb.False()}}
 	}
+	if pre, _ := e.opaque["bigpreset"].(map[*Arr][]*Term); pre != nil && pre[s.arr] != nil {
+		// the harness stated the number by its hexadecimal digits (verifDecimalOf)
+		e.bigInts[z.c] = &bigVal{sym: &bigSym{hexDigits: pre[s.arr], negative: tb.False()}}
+		e.opaque["lastbig"] = e.bigInts[z.c].sym
+		return &TupleV{E: []Value{z, tb.True()}}
+	}
 	h := int(e.caseVal("hexlen"))
 	ds := make([]*Term, h)
 	for i := range ds {
